@@ -97,8 +97,12 @@ class Outcome:
         self.stats = {}
 
 
+NO_MODEL = ({'error': 'outside'}, None, None)
+
+
 def run_text(text, tmp, model_result=None, expectation=None):
-    """one text through tokeniser check, model, implementation, and the oracles"""
+    """one text through tokeniser check, model, implementation, and the oracles
+    (model_result=NO_MODEL: implementation and oracles only)"""
     oc = Outcome()
     doc = W.tokenise(text)
     oc.doc = doc
@@ -117,6 +121,11 @@ def run_text(text, tmp, model_result=None, expectation=None):
     if e.get('error') == 'outside' or W.dangling_continuation(text):
         oc.outside = True
         oc.disagreements = [d for d in oc.disagreements if d[0] != 'tokenise' or not W.dangling_continuation(text)]
+    elif 'error' in dump and 'error' in e:
+        # both raise; the model raises at the statement where the instance is created, the reader reads
+        # the truth-table rows first, so the exception classes may differ (recorded, not a disagreement)
+        if dump['error'] != e['error']:
+            oc.stats['error_kind_differs'] = '%s/%s' % (dump['error'], e['error'])
     else:
         d = W.first_difference(dump, e)
         if d:
@@ -125,7 +134,12 @@ def run_text(text, tmp, model_result=None, expectation=None):
         for kind, t in O.design_oracle(dump, expectation):
             oc.failures.append(('design', kind, t))
     oc.written = None
-    if nl is not None:
+    oc.stats['cyclic'] = W.hierarchy_is_cyclic(dump)
+    if nl is not None and oc.stats['cyclic']:
+        # a model that instances itself: the composer (get_hinstances) would not terminate
+        for kind, t in O.wf_check(nl):
+            oc.failures.append(('wf', kind, t))
+    elif nl is not None:
         for kind, t in O.wf_check(nl):
             oc.failures.append(('wf', kind, t))
         txt, cexc = W.compose_text(nl, tmp)
@@ -147,7 +161,7 @@ def run_text(text, tmp, model_result=None, expectation=None):
             if not oc.outside and r is not None and sections(wd) == sections(w or []):
                 # the model re-reads its own text; compare when both texts have the same sections in
                 # the same order (otherwise only the set of sections is known to agree)
-                if wd == w:
+                if wd == w and r.get('error') != 'outside':
                     d = W.first_difference(d2, W.normalise_model_dump(r))
                     if d:
                         oc.disagreements.append(('reread', d))
@@ -262,6 +276,10 @@ def run(prop, tier, seed, replay):
     def account(source, oc, text):
         st['cases'] += 1
         st['outcomes']['impl:' + oc.stats.get('impl_outcome', '?')] += 1
+        if oc.stats.get('cyclic'):
+            st['outcomes']['recursive-hierarchy (not written)'] += 1
+        if oc.stats.get('error_kind_differs'):
+            st['outcomes']['both-raise-different-class:' + oc.stats['error_kind_differs']] += 1
         if oc.outside:
             st['outside'] += 1
         else:
@@ -291,7 +309,7 @@ def run(prop, tier, seed, replay):
             sig0 = unknown[0][0]
 
             def same(t):
-                o2 = run_text(t, tmp, expectation=None)
+                o2 = run_text(t, tmp, NO_MODEL)
                 return any(s == sig0 for s, _ in signatures(o2)[0])
             short = text
             if not sig0.startswith('design|'):
@@ -364,7 +382,7 @@ def run(prop, tier, seed, replay):
             st['sizes']['bundled:%d-lines' % (len(oc.doc) // 100 * 100)] += 1
             handle('bundled/' + fn, text, oc, tmp)
         # 3. generated designs, rendered by the independent writer
-        n_plain, n_quirk, n_mal = (260, 6, 60) if tier != 'thorough' else (9000, 150, 3000)
+        n_plain, n_quirk, n_mal = (2500, 40, 1000) if tier != 'thorough' else (40000, 400, 30000)
         if os.environ.get('VERIF_EBLIF_COUNTS'):        # experiments only: plain,quirk,malformed
             n_plain, n_quirk, n_mal = [int(x) for x in os.environ['VERIF_EBLIF_COUNTS'].split(',')]
         batch = []
